@@ -13,7 +13,7 @@ REQUIRED = ["precession_equatorial", "precession_ecliptical", "precession_newcom
 THEOREMS = ["C06_equ_closed_form", "C06_equ_rotation", "C06_equ_identity", "C06_equ_isometry",
             "C06_rotation_facts", "C06_ecl_closed_form", "C06_ecl_rotation", "C06_ecl_identity",
             "C06_ecl_isometry", "C06_newcomb_closed_form", "C06_newcomb_rotation", "C06_newcomb_identity",
-            "C06_obliquity"]
+            "C06_obliquity", "C06_p_motion_closed_form", "C06_motion_in_space_closed_form", "C06_orbital_closed_form"]
 PROOF_TIMEOUT = {"quick": 1500, "thorough": 3000}
 EXHAUSTIVE = False
 MANIFEST = {
@@ -42,14 +42,15 @@ CLAUSES = {
     "equatorial route agrees with the ecliptical route through the mean obliquity of each epoch to 1e-4 deg":
         "unproved (searched): three separately fitted polynomial sets, agreement is numerical",
     "Newcomb within 0.005 deg of FK5 for 1800-2100": "unproved (searched): numerical closeness of two polynomial sets",
-    "orbital elements to another equinox and back": "unproved (searched); refuted for inclinations > 90 deg and < 1 deg (findings orbital-retrograde-inclination, orbital-small-inclination)",
-    "p_motion_equa2eclip, motion_in_space": "unproved (searched: finite-difference consistency, zero-time identity, radial motion keeps the direction); correspondence bit-exact",
+    "orbital elements to another equinox and back": "exact closed form of the general branch proved [ideal, C06_orbital_closed_form, pins every constant]; the round trip itself unproved (searched, 1e-6 deg); refuted for inclinations > 90 deg and < 1 deg (known findings orbital-retrograde-inclination, orbital-small-inclination)",
+    "p_motion_equa2eclip, motion_in_space": "exact closed forms proved [ideal, C06_p_motion_closed_form, C06_motion_in_space_closed_form]; searched: finite-difference consistency with the coordinate conversion, zero-time identity, radial motion keeps the direction, vector form r0 + t*v",
     "binary64 rounding of all the above": "unproved (searched with the property's tolerances; correspondence is bit-exact with traced libm)",
 }
 
 
 def proof_files(tier):
-    return ["C06_angle.v", "C06_tac.v", "C06_jde.v", "C06_equ.v", "C06_ecl.v", "C06_obl.v", "C06_main.v", "C06.v"]
+    return ["C06_angle.v", "C06_tac.v", "C06_jde.v", "C06_equ.v", "C06_ecl.v", "C06_obl.v", "C06_aux.v", "C06_orb.v",
+            "C06_main.v", "C06.v"]
 
 
 # ----------------------------------------------------------------------------- generators
@@ -311,6 +312,22 @@ def search(rng, tier, deep):
             s1 = call("motion", C.motion_in_space, xs, Angle(ra2), Angle(dec2), dist, vel, Angle(0.0), Angle(0.0), tm)
             if s1 is not None and sep(vec(*s1), vec(ra2, dec2)) > 1e-9:
                 report("motion-in-space-radial", "%s changes the direction by %.3g deg although the motion is purely radial" % (xs, sep(vec(*s1), vec(ra2, dec2))), xs, xs)
+        # general case against the vector form: r(t) = d*u + t*(dr*u + d*(mu_a du/da + mu_d du/dd)), dr = v / 977792 pc/yr
+        tm = rng.uniform(-5000, 5000)
+        xs = "motion_in_space(%s, %s, %s, %s, %s, %s, %s)" % (A(ra2), A(dec2), fmt(dist), fmt(vel), A(ma), A(md), fmt(tm))
+        s3 = call("motion", C.motion_in_space, xs, Angle(ra2), Angle(dec2), dist, vel, Angle(ma), Angle(md), tm)
+        if s3 is not None:
+            al, de = math.radians(ra2), math.radians(dec2)
+            u = vec(ra2, dec2)
+            du_da = (-math.cos(de) * math.sin(al), math.cos(de) * math.cos(al), 0.0)
+            du_dd = (-math.sin(de) * math.cos(al), -math.sin(de) * math.sin(al), math.cos(de))
+            dr = vel / 977792.0
+            w = tuple(dist * u[k] + tm * (dr * u[k] + dist * (math.radians(ma) * du_da[k] + math.radians(md) * du_dd[k])) for k in range(3))
+            nw = math.sqrt(sum(c * c for c in w))
+            if nw > 1e-3 * dist:
+                d = sep(vec(*s3), tuple(c / nw for c in w))
+                if d > 1e-9:
+                    report("motion-in-space-vector", "%s is %.3g deg from the direction of r0 + t*v" % (xs, d), xs, xs)
         xs = "motion_in_space(%s, %s, %s, 0.0, %s, %s, 1.0)" % (A(ra2), A(dec2), fmt(dist), A(ma), A(md))
         s2 = call("motion", C.motion_in_space, xs, Angle(ra2), Angle(dec2), dist, 0.0, Angle(ma), Angle(md), 1.0)
         if s2 is not None:
